@@ -227,7 +227,7 @@ func runC04(c *Ctx) {
 func c04One(c *Ctx, i int, r *gen.Rng, opts encoder.Options) {
 	mode := r.Intn(10)
 	var t reflect.Type
-	vo := gen.ValOpts{MaxLen: 5, NilChance: 5, BigStrings: true}
+	vo := gen.ValOpts{MaxLen: 5, NilChance: 5, BigStrings: true, BigSlices: true}
 	label := ""
 	switch {
 	case mode < 6: // pure type, round trip expected
